@@ -18,6 +18,10 @@ WILD = {
     'local': ('##local', ('',)),
     'tns': ('##targetNamespace', (TNS,)),
     'ext': ('ext', ('ext',)),
+    # XSD 1.1 notNamespace forms (attribute notNamespace instead of namespace)
+    'nottns': ('!##targetNamespace', '##not:' + TNS),
+    'notlocal': ('!##local', '##not:'),
+    'notboth': ('!##targetNamespace ##local', '##not:' + TNS + '|'),
 }
 
 
@@ -44,7 +48,10 @@ def to_xsd(node, version='1.0'):
             return '<xs:element name="%s" type="xs:%s"%s/>' % (name, ty, oa)
         return '<xs:element ref="%s"%s/>' % (tok, oa)
     if k == 'w':
-        return '<xs:any namespace="%s" processContents="lax"%s/>' % (WILD[node[1]][0], oa)
+        spec = WILD[node[1]][0]
+        if spec.startswith('!'):
+            return '<xs:any notNamespace="%s" processContents="lax"%s/>' % (spec[1:], oa)
+        return '<xs:any namespace="%s" processContents="lax"%s/>' % (spec, oa)
     tag = {'s': 'sequence', 'c': 'choice', 'a': 'all'}[k]
     return '<xs:%s%s>%s</xs:%s>' % (tag, oa, ''.join(to_xsd(c, version) for c in node[1]), tag)
 
@@ -194,6 +201,40 @@ def catalogue(max_leaves=4, leaf_tokens=('a', 'b', 'c'), with_wild=True, with_su
             continue
         seen.add(r)
         out.append(s)
+    return out
+
+
+def catalogue_11():
+    """XSD 1.1 only: notNamespace wildcards against the other leaf kinds"""
+    nots = [W('nottns'), W('notlocal'), W('notboth')]
+    others = [W('local'), W('tns'), W('any'), W('other'), E('a'), W('ext')]
+    out = []
+    for kind in (S, C):
+        for x in nots:
+            for y in others + nots:
+                out.append(kind(x, y))
+                out.append(kind(y, x))
+    seen, res = set(), []
+    for s in out:
+        r = shape_id(s)
+        if r not in seen:
+            seen.add(r)
+            res.append(s)
+    return res
+
+
+def catalogue_deep():
+    """nesting depth 3: a competing particle sits under two nested groups below the common ancestor.
+    Returned with the mask of particles whose occurrences are made symbolic (the three groups and the last leaf)."""
+    out = []
+    for outer in (S, C):
+        for mid in (S, C):
+            for inner_items in ((E('a'), E('b')), (E('a'),), (E('b'), E('a'))):
+                for last in (E('a'), E('b'), W('tns')):
+                    if outer is C and mid is C:
+                        continue
+                    shape = S(outer(mid(*inner_items)), last) if outer is S else S(outer(mid(*inner_items), E('c')), last)
+                    out.append(shape)
     return out
 
 
